@@ -67,11 +67,11 @@ theorem table_lookup (o : Op) (ho : o ∈ stdOps) (pre rest : Bytes) (hpre : exp
   rcases ho with rfl | rfl | rfl | rfl | rfl | rfl | rfl | rfl | rfl | rfl | rfl | rfl | rfl | rfl | rfl | rfl | rfl <;>
   · cases rest with
     | nil =>
-      simp [firstMatch, stdOps, opsOf, Facts.fixedOperators, symBytes, String.utf8EncodeChar, Op.matchAt, MINUS, hh,
+      simp [firstMatch, stdOps, opsOf, Facts.fixedOperators, symBytes, String.utf8EncodeChar, Op.matchAt, MINUS, PLUS, hh,
         List.find?, List.isPrefixOf]
     | cons c r =>
       simp [RP] at hnb
-      simp [firstMatch, stdOps, opsOf, Facts.fixedOperators, symBytes, String.utf8EncodeChar, Op.matchAt, MINUS, hh,
+      simp [firstMatch, stdOps, opsOf, Facts.fixedOperators, symBytes, String.utf8EncodeChar, Op.matchAt, MINUS, PLUS, hh,
         List.find?, List.isPrefixOf]
       try (have h61 : (61 == c) = false := by (simp; omega)
            simp [h61])
@@ -85,6 +85,7 @@ theorem table_lexable : LexTable stdOps where
     simp [isScanSpace] at hc
     rcases hc with ((h | h) | h) | h <;> subst h <;> decide
   minus := by decide
+  plus := by decide
   fm := table_lookup
   eq61 := by decide
   un61 := by decide
@@ -100,12 +101,12 @@ theorem table_full : FullTable stdOps lpOp rpOp where
   lp40 := by
     intro pre t
     rw [show lpOp = ⟨LP, 0, false, false⟩ by decide]
-    simp [firstMatch, stdOps, opsOf, Facts.fixedOperators, symBytes, String.utf8EncodeChar, Op.matchAt, MINUS, LP,
+    simp [firstMatch, stdOps, opsOf, Facts.fixedOperators, symBytes, String.utf8EncodeChar, Op.matchAt, MINUS, PLUS, LP,
       List.find?, List.isPrefixOf]
   rp41 := by
     intro pre t
     rw [show rpOp = ⟨RP, 0, false, false⟩ by decide]
-    simp [firstMatch, stdOps, opsOf, Facts.fixedOperators, symBytes, String.utf8EncodeChar, Op.matchAt, MINUS, RP,
+    simp [firstMatch, stdOps, opsOf, Facts.fixedOperators, symBytes, String.utf8EncodeChar, Op.matchAt, MINUS, PLUS, RP,
       List.find?, List.isPrefixOf]
   lpM := by decide
   rpM := by decide
